@@ -173,6 +173,17 @@ def fmt_parser(prog):
     def find():
         f = prog.func("objects.Fxp._parseformatstr", required=False)
         if f is not None:
+            prog._fmt_parser_entry = f
+            # pure delegation (`return helper(fmt)`): the parser is the function it hands the string to
+            for _ in range(3):
+                body = [s for s in f.node.body if not (isinstance(s, ast.Expr) and isinstance(s.value, ast.Constant))]
+                if len(body) == 1 and isinstance(body[0], ast.Return) and isinstance(body[0].value, ast.Call):
+                    q = prog.resolve_call(f, body[0].value)
+                    from .pinned import PINNED_FUNCS
+                    if q in prog.funcs and q not in PINNED_FUNCS:
+                        f = prog.funcs[q]
+                        continue
+                break
             return f
         cands = []
         for m in fxp_methods(prog):
@@ -183,6 +194,12 @@ def fmt_parser(prog):
             raise AnalysisError("format-string parser role matches %d functions" % len(cands))
         return cands[0]
     return _memo(prog, "prs", find)
+
+
+def fmt_parser_entry(prog):
+    """the function callers hand a dtype string to (the pinned parser method, even when it only delegates)"""
+    p = fmt_parser(prog)
+    return getattr(prog, "_fmt_parser_entry", p)
 
 
 def wrappers(prog):
